@@ -56,19 +56,6 @@ theorem C10_suggestions_order_dependent_counterexample :
   revert this
   decide
 
-/-- two loaded schemas that differ only in the order of the association lists that stand for Go
-    maps (keys unique) -/
-structure SameMaps (s s' : Schema) : Prop where
-  query : s.query = s'.query
-  mutation : s.mutation = s'.mutation
-  subscription : s.subscription = s'.subscription
-  types : s.types.Perm s'.types
-  typeKeys : (s.types.map (·.1)).Nodup
-  directives : s.directives.Perm s'.directives
-  directiveKeys : (s.directives.map (·.1)).Nodup
-  possibleTypes : s.possibleTypes.Perm s'.possibleTypes
-  possibleKeys : (s.possibleTypes.map (·.1)).Nodup
-
 /-- the view the validator reads does not depend on the order of the maps -/
 theorem C10_view_order_irrelevant (s s' : Schema) (h : SameMaps s s') : s.view = s'.view := by
   unfold Schema.view
